@@ -5,11 +5,12 @@ from ..common import *
 ID = "C12"
 LEVEL = "proof"
 LEAN_MODULE = "Frost.Props.C12"
-THEOREMS = ["Frost.C12.decVarint_encVarint", "Frost.C12.decU16_encU16", "Frost.C12.decUsize_encUsize", "Frost.C12.header_accept_iff", "Frost.C12.header_reject", "Frost.C12.keyPackage_needs_header", "Frost.C12.rt_commitments", "Frost.C12.rt_nonces", "Frost.C12.rt_package", "Frost.C12.rt_secretShare", "Frost.C12.rt_keyPackage", "Frost.C12.rt_publicKeyPackage", "Frost.C12.rt_round1Package", "Frost.C12.rt_round2Package", "Frost.C12.rt_round1Secret", "Frost.C12.rt_round2Secret", "Frost.C12.default_signature_laws", "Frost.C12.ofList_sorted", "Frost.C12.primScalar_canonical", "Frost.C12.primElem_canonical", "Frost.C12.primScalar_injective", "Frost.C12.primElem_injective", "Frost.C12.signature_canonical", "Frost.C12.signature_wrong_length", "Frost.C12.identifier_rejects_zero", "Frost.C12.signingKey_rejects_zero", "Frost.C12.prim_wrong_length", "Frost.C12.fq_laws_le", "Frost.C12.fq_laws_be", "Frost.C12.ed448_scalar_last_byte", "Frost.C12.sec1_tag", "Frost.C12.sec1_canonical", "Frost.C12.p256_canon", "Frost.C12.secp256k1_canon", "Frost.C12.ed448_canon", "Frost.C12.toy31_instance"]
+THEOREMS = ["Frost.C12.decVarint_encVarint", "Frost.C12.decU16_encU16", "Frost.C12.decUsize_encUsize", "Frost.C12.header_accept_iff", "Frost.C12.header_reject", "Frost.C12.keyPackage_needs_header", "Frost.C12.rt_commitments", "Frost.C12.rt_nonces", "Frost.C12.rt_package", "Frost.C12.rt_secretShare", "Frost.C12.rt_keyPackage", "Frost.C12.rt_publicKeyPackage", "Frost.C12.rt_round1Package", "Frost.C12.rt_round2Package", "Frost.C12.rt_round1Secret", "Frost.C12.rt_round2Secret", "Frost.C12.default_signature_laws", "Frost.C12.ofList_sorted", "Frost.C12.primScalar_canonical", "Frost.C12.primElem_canonical", "Frost.C12.primScalar_injective", "Frost.C12.primElem_injective", "Frost.C12.signature_canonical", "Frost.C12.signature_wrong_length", "Frost.C12.identifier_rejects_zero", "Frost.C12.signingKey_rejects_zero", "Frost.C12.prim_wrong_length", "Frost.C12.fq_laws_le", "Frost.C12.fq_laws_be", "Frost.C12.ed448_scalar_last_byte", "Frost.C12.sec1_tag", "Frost.C12.sec1_canonical", "Frost.C12.p256_canon", "Frost.C12.secp256k1_canon", "Frost.C12.ed448_canon", "Frost.C12.toy31_instance", "Frost.C12.json_keyPackage_none_iff", "Frost.C12.json_commitments_none_iff"]
 RULE = ("one case = one (suite, wire type, value) round trip in binary or JSON form, one deviation of a container encoding (header byte, truncation, bit flip, byte substitution, trailing bytes), "
         "or one byte string offered to a fixed-size primitive decoder (valid encoding, single-bit / single-byte deviation, every leading tag byte, special values, wrong lengths, random strings); "
         "non-trivial = the decoder ran on the bytes (every case); distinct = hash of the request")
-ASSUMPTIONS = ["round-trip theorems are over the suite's scalar/element codec laws (BaseLaws); those laws are proved for the scalar codecs (little- and big-endian, any modulus and width) and the SEC1 tag rule, and validated by correspondence for the Edwards / ristretto element codecs (not proved: decompression canonicity)",
+ASSUMPTIONS = ["JSON: the ENCODER of every type is modelled (Frost.Model.Json) and compared byte-for-byte with serde_json's output; decoding JSON is decided by round-trip and rejection oracles on the real code",
+               "round-trip theorems are over the suite's scalar/element codec laws (BaseLaws); those laws are proved for the scalar codecs (little- and big-endian, any modulus and width) and the SEC1 tag rule, and validated by correspondence for the Edwards / ristretto element codecs (not proved: decompression canonicity)",
                "JSON form: decided by the round-trip and rejection oracle on the real code only (serde_json's parser is not modelled)"]
 TRUSTED = ["modelled, not verified: postcard / serde / serdect (their behaviour on these types is the model's Wire layer, compared byte-for-byte); the curve libraries' point decompression"]
 
@@ -87,7 +88,7 @@ def roundtrip(sess, suite, typ, args, want, pkgval=None):
     sess.count("roundtrip:" + t)
     # self-describing form
     jreq = "json_ser %s t=%s %s" % (suite, t, args)
-    j = sess.call(jreq, NONE, "json_ser:" + t, model=False)
+    j = sess.call(jreq, EXACT, "json_ser:" + t)     # the JSON ENCODER is modelled (Frost.Model.Json): byte-for-byte
     if sess.oracle(j.ok, "JSON serialisation of an honest %s failed" % typ, [jreq]):
         jd = sess.call("json_de %s t=%s j=%s" % (suite, t, j["j"]), NONE, "json_de:" + t, model=False)
         if t == "package":
